@@ -38,6 +38,7 @@ type C19Op struct {
 	Node int
 	// inq
 	Method string
+	NoArgs bool // the query carries no `a` dictionary at all
 	// setlist: index into Lists, -1 = nil
 	List int
 }
@@ -102,6 +103,7 @@ func genC19(t *rapid.T) C19Sc {
 		switch op.Kind {
 		case "inq":
 			op.Method = pick(t, "op.method", "ping", "find_node", "get_peers", "get", "announce_peer", "put", "nonsense")
+			op.NoArgs = uniformInt(t, 4, "op.noargs") == 0
 		case "setlist", "held":
 			op.List = uniformInt(t, nl+1, "op.list") - 1
 		}
@@ -301,7 +303,12 @@ func runC19(sc C19Sc, c *kit.Case) *kit.Violation {
 			}
 			kv := []BKV{{K: "target", V: bs(ids[0][:])}, {K: "info_hash", V: bs(ids[1][:])}, {K: "port", V: bint(1)}, {K: "token", V: bstr(tok)}, {K: "v", V: bstr("v")}, {K: "seq", V: bint(1)}}
 			lastInqT = fmt.Sprintf("q%d", tseq)
-			sv.C.Inject(node, mkQuery([]byte(lastInqT), op.Method, mkArgs(ids[op.Node], kv...)))
+			args := mkArgs(ids[op.Node], kv...)
+			if op.NoArgs {
+				args = nil
+				what += " (no arguments)"
+			}
+			sv.C.Inject(node, mkQuery([]byte(lastInqT), op.Method, args))
 			fromBlockedSource = nodeBlocked
 			what += " " + op.Method
 		case "inr":
@@ -545,7 +552,6 @@ func tableUnchanged(pre, post dht.VerifTableSnapshot, what string) *kit.Violatio
 	}
 	return nil
 }
-
 
 func init() {
 	kit.Register("C19a",
